@@ -1,5 +1,6 @@
 import PgFdr.Proofs.C10
 import PgFdr.Proofs.C10Rescue
+import PgFdr.Proofs.C10Hash
 import Mathlib.Algebra.Order.Field.Power
 
 /-!
@@ -22,6 +23,13 @@ MaxQuant parser of a razor method reads `Leading razor protein`, `razor_reads_ra
 pairing of digest maps with files.  The driver runs `ingestFilesChecked`, which answers
 `badScoreCell` exactly where the parser raises on a PEP cell (`bad_score_cell_rejected`,
 `file_raises_iff`) and is `ingestPairs` otherwise — the function every other theorem is about.
+
+Non-specific searches (`--enzyme no_enzyme` / `--digestion none`): the digest handed to the mapper is then the
+pair (6-residue prefix → proteins, protein → sequence) and `digest.get_proteins` confirms every candidate by a
+substring test.  The last section (`digest_dicts_agree` … `non_specific_ingestion`) is about ingestion over
+digests of either kind (`Digest`, `ingestFilesCheckedD` — what the driver runs as soon as one map is such a
+pair): it IS ingestion over the dicts the digests amount to, so all theorems above apply; the lookup on the
+pair the tool builds (`C09.fromParams`) returns exactly the database records containing the peptide.
 -/
 namespace PgFdr.C10
 
@@ -624,5 +632,368 @@ example : C04.demoInp.pil = ingestPairs exactT exMode (pairUp false [] [exRows2]
 example : ∀ row ∈ C04.demoRes.rows, isDecoy row.proteins = true ∨ ∀ p ∈ row.proteins, isDecoyId p = false :=
   purity_reported_groups exactT exMode (pairUp false [] [exRows2]) (by decide +kernel) C04.demoCfg C04.demoInp
     C04.demoRes (by decide +kernel) C04.demo_run
+
+/-! ## Digests of non-specific searches: the (prefix index, sequences) pair -/
+
+/-- plain dict digests are the special case of `Digest`: the lookup is `dict.get(peptide, [])` and the checked
+    ingestion over `Digest.dict` maps is the checked ingestion of the theorems above (the driver runs the
+    latter when every map is a dict, the former otherwise) -/
+theorem digest_dicts_agree (T : Transforms) (mode : Mode) (maps : List DMap) (files : List (List RawRow)) :
+    ingestFilesCheckedD T mode (maps.map Digest.dict) files = ingestFilesChecked T mode maps files ∧
+    ∀ m q, (Digest.dict m).lookup q = digestLookup m q := by
+  refine ⟨?_, fun _ _ => rfl⟩
+  unfold ingestFilesCheckedD ingestFilesChecked
+  rw [pairUpD_dict, ingestCheckedD_dict]
+
+/-- Ingestion asks a digest only about the stripped peptides of the rows it reads.  So ingestion with digests
+    of either kind IS ingestion with the dicts `q ↦ digest.get_proteins(digest, q)` over those peptides
+    (`Digest.tabulate`): same refusals, same peptide list, same PSM stream — whence every theorem above about
+    `ingestChecked` / `ingestPairs` / `allPsms` holds for non-specific digests with `digestLookup p.1 q` read as
+    `p.1.lookup q` (last two conjuncts: what the tabulated dict answers). -/
+theorem digest_ingest_is_dict_ingest (T : Transforms) (mode : Mode) (pairs : List (Digest × List RawRow)) :
+    ingestCheckedD T mode pairs = ingestChecked T mode (dictPairs mode pairs) ∧
+    ingestPairsD T mode pairs = ingestPairs T mode (dictPairs mode pairs) ∧
+    allPsmsD T mode pairs = allPsms T mode (dictPairs mode pairs) ∧
+    (∀ p ∈ pairs, ∀ q, digestLookup (p.1.tabulate mode p.2) q =
+      if q ∈ queries mode p.2 then p.1.lookup q else []) ∧
+    (∀ p ∈ pairs, ∀ r ∈ p.2, ∀ flank, removeMods (rowPeptide mode.format flank r) ∈ queries mode p.2) :=
+  ⟨ingestCheckedD_eq T mode pairs, ingestPairsD_eq T mode pairs, allPsmsD_eq T mode pairs,
+    fun p _ q => tabulate_lookup p.1 mode p.2 q, fun _ _ _ hr flank => mem_queries hr flank⟩
+
+/-- `digest.get_proteins` on the pair of a non-specific digest: "the proteins under the prefix key whose
+    sequence contains the peptide as a substring", `sorted` — for every pair whose index lists only proteins
+    that have a sequence (what the builder guarantees; otherwise the code dies with `KeyError`) -/
+theorem hashed_lookup_spec (idx : C09.PMap) (seqs : C09.SeqMap) (hwf : (Digest.hashed idx seqs).wf = true)
+    (q : String) :
+    (Digest.hashed idx seqs).lookup q =
+      (C09.sortStrs ((C09.get idx (q.toList.take 6)).filter (containsIn seqs q.toList))).map String.ofList ∧
+    ∀ p : String, p ∈ (Digest.hashed idx seqs).lookup q ↔
+      p.toList ∈ C09.get idx (q.toList.take 6) ∧
+      ∃ s, C09.lookupSeq seqs p.toList = some s ∧ containsSub q.toList s = true := by
+  have hc := confirm_filter seqs q.toList _ (wf_listed hwf (q.toList.take 6))
+  refine ⟨hashLookup_of_confirm hc, ?_⟩
+  intro p
+  show p ∈ hashLookup idx seqs q ↔ _
+  rw [mem_hashLookup_of_confirm hc, List.mem_filter]
+  unfold containsIn
+  constructor
+  · rintro ⟨h1, h2⟩
+    refine ⟨h1, ?_⟩
+    split at h2
+    · rename_i s hs; exact ⟨s, hs, h2⟩
+    · cases h2
+  · rintro ⟨h1, s, hs, h2⟩
+    exact ⟨h1, by rw [hs]; exact h2⟩
+
+/-- "peptides unknown to the digest are skipped" / "that PSM's proteins - taken from the in-silico digest", for
+    the pair the tool builds for a non-specific search (`C09.fromParams` with one `digestion = "none"` parameter
+    set over FASTA files with distinct identifiers; database = targets and generated decoys):
+    (1) the prefix index ADDS nothing — whatever the peptide's length, every protein returned is a database
+        record whose sequence contains the peptide; hence a peptide contained in no sequence gets `[]` (4)
+        however many sequences share its first six residues;
+    (2) the prefix index LOSES nothing — for a peptide inside the length window, and for every peptide of at
+        least `max 6 min_length` residues (longer than `max_length` included: the lookup does not check the
+        window), the answer is the sorted list of the identifiers of exactly the records containing it;
+    (3) a peptide shorter than six residues and shorter than `min_length` is never known (its key is the
+        peptide itself and every key has `min 6 |peptide of the digest|` residues).
+    Between (2) and (3) — six or more residues but fewer than `min_length` — the code finds a containing
+    record iff one of its peptides starts with the same six residues (`confirm_built`); nothing is claimed. -/
+theorem hashed_lookup_exact (parse : C09.ParseId) (files : List (List C09.Str)) (p : C09.Params) (d : Digest)
+    (hb : IsNonSpecificDigest d parse files p) (q : String) :
+    (∀ pid ∈ d.lookup q, ∃ seq, (pid.toList, seq) ∈ C09.dbRecords parse p files ∧
+      ∃ pre suf, seq = pre ++ q.toList ++ suf) ∧
+    ((p.minL ≤ q.toList.length ∧ q.toList.length ≤ p.maxL) ∨
+        (6 ≤ q.toList.length ∧ p.minL ≤ q.toList.length ∧ max 6 p.minL ≤ p.maxL) →
+      d.lookup q = (C09.sortStrs (((C09.dbRecords parse p files).filter
+          (fun x => containsSub q.toList x.2)).map (·.1))).map String.ofList ∧
+      ∀ pid : String, pid ∈ d.lookup q ↔ ∃ seq, (pid.toList, seq) ∈ C09.dbRecords parse p files ∧
+        ∃ pre suf, seq = pre ++ q.toList ++ suf) ∧
+    (q.toList.length < 6 → q.toList.length < p.minL → d.lookup q = []) ∧
+    ((∀ x ∈ C09.dbRecords parse p files, containsSub q.toList x.2 = false) → d.lookup q = []) := by
+  obtain ⟨res, hres, rfl, hmode, hhash, hd⟩ := hb
+  cases hr : C08.lookupEnzyme p.enzyme with
+  | none =>
+    obtain ⟨hf, hres'⟩ := C09.fromParams_one_no_enzyme parse files p hr res hres
+    subst hf hres'
+    have h0 : ∀ q, (Digest.hashed ([] : C09.PMap) ([] : C09.SeqMap)).lookup q = [] := fun _ => rfl
+    refine ⟨by simp [h0], fun _ => ⟨by simp [h0, C09.dbRecords, C09.sortStrs], by simp [h0, C09.dbRecords]⟩,
+      fun _ _ => h0 q, fun _ => h0 q⟩
+  | some r =>
+    have hc := Built.confirm_built parse files p r hr res hres hhash hd q.toList
+    have hmem := mem_hashLookup_of_confirm hc
+    have hall : ∀ pid : String, pid ∈ (Digest.hashed res.1 res.2).lookup q ↔
+        ∃ x ∈ C09.dbRecords parse p files, (decide (q.toList.take 6 ∈ C09.keysOf (C09.argsOf r p parse) x.2) &&
+          containsSub q.toList x.2) = true ∧ x.1 = pid.toList := by
+      intro pid
+      show pid ∈ hashLookup res.1 res.2 q ↔ _
+      rw [hmem, List.mem_map]
+      simp only [List.mem_filter, and_assoc]
+    refine ⟨?_, ?_, ?_, ?_⟩
+    · intro pid hpid
+      obtain ⟨x, hx, hk, hx1⟩ := (hall pid).mp hpid
+      simp only [Bool.and_eq_true, decide_eq_true_eq] at hk
+      exact ⟨x.2, by rw [← hx1]; exact hx, (C09.containsSub_iff _ _).mp hk.2⟩
+    · intro hlen
+      have hkey : ∀ x : C09.Str × C09.Str, containsSub q.toList x.2 = true →
+          q.toList.take 6 ∈ C09.keysOf (C09.argsOf r p parse) x.2 :=
+        fun x hx => Built.key_of_contains r p parse hmode hhash q.toList x.2 hx hlen
+      have hfilter : (C09.dbRecords parse p files).filter
+            (fun x => decide (q.toList.take 6 ∈ C09.keysOf (C09.argsOf r p parse) x.2) && containsSub q.toList x.2) =
+          (C09.dbRecords parse p files).filter (fun x => containsSub q.toList x.2) := by
+        apply List.filter_congr
+        intro x _
+        cases hx : containsSub q.toList x.2
+        · simp
+        · simp [hkey x hx]
+      constructor
+      · show hashLookup res.1 res.2 q = _
+        rw [hashLookup_of_confirm hc, hfilter]
+      · intro pid
+        rw [hall pid]
+        constructor
+        · rintro ⟨x, hx, hk, hx1⟩
+          simp only [Bool.and_eq_true, decide_eq_true_eq] at hk
+          exact ⟨x.2, by rw [← hx1]; exact hx, (C09.containsSub_iff _ _).mp hk.2⟩
+        · rintro ⟨seq, hx, hsub⟩
+          have hcs := (C09.containsSub_iff q.toList seq).mpr hsub
+          exact ⟨(pid.toList, seq), hx, by simp [hkey (pid.toList, seq) hcs, hcs], rfl⟩
+    · intro h6 hlo
+      apply List.eq_nil_iff_forall_not_mem.mpr
+      intro pid hpid
+      obtain ⟨x, _, hk, _⟩ := (hall pid).mp hpid
+      simp only [Bool.and_eq_true, decide_eq_true_eq] at hk
+      exact Built.no_key_of_short r p parse hmode hhash q.toList x.2 h6 hlo hk.1
+    · intro hno
+      apply List.eq_nil_iff_forall_not_mem.mpr
+      intro pid hpid
+      obtain ⟨x, hx, hk, _⟩ := (hall pid).mp hpid
+      simp only [Bool.and_eq_true, decide_eq_true_eq] at hk
+      rw [hno x hx] at hk
+      exact absurd hk.2 (by simp)
+
+/-- `psm_of_row` over digests of either kind: the PSM stream consists exactly of the rows whose stripped peptide
+    the file's digest knows (remapping) and whose source list keeps a protein after the decoy purge -/
+theorem psm_of_row_digest (T : Transforms) (mode : Mode) (pairs : List (Digest × List RawRow)) (x : Psm) :
+    x ∈ allPsmsD T mode pairs ↔
+      ∃ p ∈ pairs, ∃ r ∈ p.2,
+        (mode.remap = true →
+          p.1.lookup (removeMods (rowPeptide mode.format (flankOf mode.format p.2) r)) ≠ []) ∧
+        removeDecoyProteinsFromTargetPeptides
+          (sourceProteinsBy mode.remap p.1.lookup (rowPeptide mode.format (flankOf mode.format p.2) r)
+            (rowProteinsOf mode r)) ≠ [] ∧
+        x = { modPep := rowPeptide mode.format (flankOf mode.format p.2) r,
+              score := rowScore T mode.format r,
+              prots := removeDecoyProteinsFromTargetPeptides
+                (sourceProteinsBy mode.remap p.1.lookup (rowPeptide mode.format (flankOf mode.format p.2) r)
+                  (rowProteinsOf mode r)) } := by
+  rw [allPsmsD_eq, psm_of_row]
+  unfold dictPairs
+  constructor
+  · rintro ⟨p', hp', r, hr, h1, h2, h3⟩
+    obtain ⟨p, hp, rfl⟩ := List.mem_map.mp hp'
+    simp only at hr h1 h2 h3
+    rw [sourceProteins_tab p.1 mode hr] at h2 h3
+    rw [tabulate_lookup, if_pos (mem_queries hr _)] at h1
+    exact ⟨p, hp, r, hr, h1, h2, h3⟩
+  · rintro ⟨p, hp, r, hr, h1, h2, h3⟩
+    refine ⟨(p.1.tabulate mode p.2, p.2), List.mem_map.mpr ⟨p, hp, rfl⟩, r, hr, ?_, ?_, ?_⟩
+    · simp only
+      rw [tabulate_lookup, if_pos (mem_queries hr _)]
+      exact h1
+    · simp only
+      rw [sourceProteins_tab p.1 mode hr]
+      exact h2
+    · simp only
+      rw [sourceProteins_tab p.1 mode hr]
+      exact h3
+
+/-- `best_psm` over digests of either kind: lowest PEP and the proteins of the first PSM attaining it -/
+theorem best_psm_digest (T : Transforms) (mode : Mode) (pairs : List (Digest × List RawRow)) (q : String) :
+    match get (ingestPairsD T mode pairs) q with
+    | none => ∀ x ∈ allPsmsD T mode pairs, x.key = q → x.score = none
+    | some e =>
+      e.peptide = q ∧ ∃ pre x post, allPsmsD T mode pairs = pre ++ x :: post ∧ x.key = q ∧
+        x.score = some e.pep ∧ x.prots = e.proteins ∧
+        (∀ y ∈ pre, y.key = q → ∀ s, y.score = some s → e.pep < s) ∧
+        (∀ y ∈ post, y.key = q → ∀ s, y.score = some s → e.pep ≤ s) := by
+  rw [ingestPairsD_eq, allPsmsD_eq]
+  exact best_psm T mode (dictPairs mode pairs) q
+
+/-- "peptides unknown to the digest are skipped", over digests of either kind and for razor and non-razor
+    methods: when the method remaps, a stripped peptide for which `digest.get_proteins` answers `[]` on every
+    paired digest never enters the result -/
+theorem unknown_peptides_skipped_digest (T : Transforms) (mode : Mode) (hm : mode.remap = true)
+    (pairs : List (Digest × List RawRow)) (q : String) (h : ∀ p ∈ pairs, p.1.lookup q = []) :
+    get (ingestPairsD T mode pairs) q = none ∧ ∀ e ∈ ingestPairsD T mode pairs, e.peptide ≠ q := by
+  have hno : ∀ x ∈ allPsmsD T mode pairs, x.key ≠ q := by
+    intro x hx hk
+    obtain ⟨p, hp, r, _, hrow⟩ := mem_allPsmsD hx
+    have := (rowPsmBy_some hrow).2.2.2.2 hm
+    rw [hk] at this
+    exact this (h p hp)
+  constructor
+  · have hb := best_psm_digest T mode pairs q
+    cases hg : get (ingestPairsD T mode pairs) q with
+    | none => rfl
+    | some e =>
+      rw [hg] at hb
+      obtain ⟨_, pre, x, post, hxs, hxk, _⟩ := hb
+      exact absurd hxk (hno x (by rw [hxs]; simp))
+  · intro e he hq
+    obtain ⟨x, hx, hk, _⟩ := mem_parse he
+    exact hno x hx (hk.trans hq)
+
+/-- "A protein list containing a target loses its decoy entries … only of targets or only of decoys", over
+    digests of either kind: every entry lists the purged source list of one row; when the method remaps that
+    is the purged answer of one paired digest for the entry's own (stripped) peptide, never empty; each
+    peptide is all-decoy or lists no decoy. -/
+theorem target_list_loses_decoys_digest (T : Transforms) (mode : Mode) (pairs : List (Digest × List RawRow)) :
+    ∀ e ∈ ingestPairsD T mode pairs,
+      e.proteins ≠ [] ∧
+      (∃ p ∈ pairs, ∃ r ∈ p.2, ∃ src,
+        src = sourceProteinsBy mode.remap p.1.lookup (rowPeptide mode.format (flankOf mode.format p.2) r)
+                (rowProteinsOf mode r) ∧
+        (mode.remap = true → src = p.1.lookup e.peptide) ∧
+        e.proteins = if isDecoy src then src else src.filter (fun x => !isDecoyId x)) ∧
+      (isDecoy e.proteins = true ∨ ∀ x ∈ e.proteins, isDecoyId x = false) := by
+  intro e he
+  obtain ⟨x, hx, hkey, _, hprots⟩ := mem_parse he
+  obtain ⟨p, hp, r, hr, hrow⟩ := mem_allPsmsD hx
+  obtain ⟨h1, _, h3, h4, _⟩ := rowPsmBy_some hrow
+  rw [hprots] at h3 h4
+  refine ⟨h4, ⟨p, hp, r, hr, _, rfl, ?_, ?_⟩, ?_⟩
+  · intro hm
+    simp only [sourceProteinsBy, hm, if_true]
+    rw [← hkey, Psm.key, h1]
+  · rw [h3]; rfl
+  · rw [h3]
+    unfold removeDecoyProteinsFromTargetPeptides
+    split
+    · left; assumption
+    · right
+      intro y hy
+      have := (List.mem_filter.mp hy).2
+      simpa [isDecoyId] using this
+
+/-- `purity` and `purity_reported_groups` over digests of either kind: "… so every reported group consists only
+    of targets or only of decoys" — for every grouping whose groups are linked by shared peptides of the ingested
+    list, and for every row of the composed pipeline model on that list -/
+theorem purity_digest (T : Transforms) (mode : Mode) (pairs : List (Digest × List RawRow))
+    (hids : ∀ e ∈ ingestPairsD T mode pairs, ∀ p ∈ e.proteins, MarkerOnlyAsPrefix p) :
+    (∀ groups : List (List String),
+      (∀ g ∈ groups, ∀ a ∈ g, ∀ b ∈ g, Relation.ReflTransGen (SharePeptide (ingestPairsD T mode pairs)) a b) →
+      ∀ g ∈ groups, isDecoy g = true ∨ ∀ p ∈ g, isDecoyId p = false) ∧
+    (∀ (cfg : Pipeline.Config) (inp : Pipeline.Input) (r : Pipeline.Result),
+      inp.pil = ingestPairsD T mode pairs → Pipeline.run cfg inp = .ok r →
+      ∀ row ∈ r.rows, isDecoy row.proteins = true ∨ ∀ p ∈ row.proteins, isDecoyId p = false) := by
+  rw [ingestPairsD_eq] at hids ⊢
+  exact ⟨fun groups hconn => purity T mode _ groups hids hconn,
+    fun cfg inp r hpil hrun => purity_reported_groups T mode _ hids cfg inp r hpil hrun⟩
+
+/-- The property for a remapping method on a non-specific search, end to end on the model: every file is
+    paired with the pair the tool builds from its FASTA files (targets + generated decoys, distinct
+    identifiers).  Then (1) every entry of the result lists — purged of decoys if a target is among them, never
+    empty, never mixed — the answer of one paired digest for the entry's own stripped peptide, and every protein
+    listed is a record of that digest's database whose sequence contains the peptide; (2) a stripped peptide
+    contained in no sequence of any paired database is not a key of the result, whatever its length and
+    however many sequences share its first six residues. -/
+theorem non_specific_ingestion (T : Transforms) (mode : Mode) (hm : mode.remap = true)
+    (pairs : List (Digest × List RawRow))
+    (hb : ∀ p ∈ pairs, ∃ parse files prm, IsNonSpecificDigest p.1 parse files prm) :
+    (∀ e ∈ ingestPairsD T mode pairs, ∃ p ∈ pairs, ∃ parse files prm, IsNonSpecificDigest p.1 parse files prm ∧
+      e.proteins = removeDecoyProteinsFromTargetPeptides (p.1.lookup e.peptide) ∧ e.proteins ≠ [] ∧
+      (∀ pid ∈ e.proteins, ∃ seq, (pid.toList, seq) ∈ C09.dbRecords parse prm files ∧
+        ∃ pre suf, seq = pre ++ e.peptide.toList ++ suf) ∧
+      (isDecoy e.proteins = true ∨ ∀ x ∈ e.proteins, isDecoyId x = false)) ∧
+    (∀ q : String,
+      (∀ p ∈ pairs, ∀ parse files prm, IsNonSpecificDigest p.1 parse files prm →
+        ∀ x ∈ C09.dbRecords parse prm files, containsSub q.toList x.2 = false) →
+      get (ingestPairsD T mode pairs) q = none ∧ ∀ e ∈ ingestPairsD T mode pairs, e.peptide ≠ q) := by
+  constructor
+  · intro e he
+    obtain ⟨hne, ⟨p, hp, r, _, src, _, hsrc, hprots⟩, hpure⟩ := target_list_loses_decoys_digest T mode pairs e he
+    obtain ⟨parse, files, prm, hbp⟩ := hb p hp
+    have hs := hsrc hm
+    have hpur : e.proteins = removeDecoyProteinsFromTargetPeptides (p.1.lookup e.peptide) := by
+      rw [hprots, hs]
+      unfold removeDecoyProteinsFromTargetPeptides
+      split
+      · rfl
+      · apply List.filter_congr; intro y _; simp [isDecoyId]
+    refine ⟨p, hp, parse, files, prm, hbp, hpur, hne, ?_, hpure⟩
+    intro pid hpid
+    have hsub : pid ∈ p.1.lookup e.peptide := by
+      rw [hpur] at hpid
+      unfold removeDecoyProteinsFromTargetPeptides at hpid
+      split at hpid
+      · exact hpid
+      · exact (List.mem_filter.mp hpid).1
+    exact (hashed_lookup_exact parse files prm p.1 hbp e.peptide).1 pid hsub
+  · intro q hq
+    apply unknown_peptides_skipped_digest T mode hm pairs q
+    intro p hp
+    obtain ⟨parse, files, prm, hbp⟩ := hb p hp
+    exact (hashed_lookup_exact parse files prm p.1 hbp q).2.2.2 (hq p hp parse files prm hbp)
+
+/-! ### Non-vacuity for the non-specific section
+
+Two proteins sharing their first six residues, `--enzyme no_enzyme`, window 7–60, decoys generated (reversed,
+`K`/`R` swapped with the preceding residue): the database has four records with distinct identifiers; `protB`
+contains a stretch of reversed `protA`. -/
+
+private def exNsParams : C09.Params := C09.mkParams "no_enzyme" "full" 7 60 2 "KR" false
+private def exNsFiles : List (List C09.Str) :=
+  [[">protA first".toList, "ACDEFGHIKLM".toList, ">protB".toList, "ACDEFGTTHGFEDCAW".toList]]
+
+private def exNsDigest : Digest :=
+  match C09.fromParams .firstSpace exNsFiles [exNsParams] with
+  | .ok res => .hashed res.1 res.2
+  | .error _ => .dict []
+
+/-- hypotheses of `hashed_lookup_exact` / `non_specific_ingestion` -/
+example : IsNonSpecificDigest exNsDigest .firstSpace exNsFiles exNsParams := by
+  refine ⟨((C09.fromParams .firstSpace exNsFiles [exNsParams]).toOption.getD ([], [])), by decide +kernel,
+    by decide +kernel, by decide +kernel, by decide +kernel, by decide +kernel⟩
+
+example : (C09.dbRecords .firstSpace exNsParams exNsFiles).map (fun x => (String.ofList x.1, String.ofList x.2)) =
+    [("protA", "ACDEFGHIKLM"), ("REV__protA", "MKLIHGFEDCA"), ("protB", "ACDEFGTTHGFEDCAW"),
+     ("REV__protB", "WACDEFGHTTGFEDCA")] := by decide +kernel
+
+/-- hypothesis of `hashed_lookup_spec` -/
+example : exNsDigest.wf = true := by decide +kernel
+
+/-- the lookup: a peptide of one protein; the shared prefix region (six residues, below the window: found because
+    longer peptides start there) in two targets and a decoy; contained in no sequence with a prefix that ONE
+    sequence owns (`DEFGHI`) and with a prefix three sequences share (`ACDEFG`); six residues at the very end of a
+    decoy sequence and inside a target (only the latter has a 7-mer starting there); a peptide of a target and a
+    decoy; shorter than six residues; a decoy peptide -/
+example : [exNsDigest.lookup "CDEFGHIK", exNsDigest.lookup "ACDEFG", exNsDigest.lookup "DEFGHIWW",
+      exNsDigest.lookup "ACDEFGKK", exNsDigest.lookup "GFEDCA", exNsDigest.lookup "HGFEDCA",
+      exNsDigest.lookup "CDEFG", exNsDigest.lookup "MKLIHGF"] =
+    [["protA"], ["REV__protB", "protA", "protB"], [], [], ["protB"], ["REV__protA", "protB"], [],
+     ["REV__protA"]] := by decide +kernel
+
+/-- ingestion (MaxQuant input, remapping): the modified spelling of `CDEFGHIK` shares the key and wins; `DEFGHIWW`
+    (prefix owned by `protA` alone) and the too short `CDEFG` are skipped; `HGFEDCA` occurs in a target and a decoy
+    sequence and loses the decoy; `MKLIHGF` is a decoy peptide -/
+private def exNsRows : List RawRow :=
+  [ { pep := "_CDEFGHIK_", mod := "", score := some (1/100), prot := ["zzz"], decoy := false },
+    { pep := "_C(ca)DEFGHIK_", mod := "", score := some (1/1000), prot := ["zzz"], decoy := false },
+    { pep := "_DEFGHIWW_", mod := "", score := some (1/1000), prot := ["protA"], decoy := false },
+    { pep := "_CDEFG_", mod := "", score := some (1/1000), prot := ["protA"], decoy := false },
+    { pep := "_HGFEDCA_", mod := "", score := some (1/50), prot := ["protA"], decoy := false },
+    { pep := "_MKLIHGF_", mod := "", score := some (1/50), prot := ["protA"], decoy := false } ]
+
+example : ingestFilesCheckedD exactT { format := .maxquant, remap := true } [exNsDigest] [exNsRows] =
+    .ok [ { peptide := "CDEFGHIK", pep := 1/1000, proteins := ["protA"] },
+          { peptide := "HGFEDCA", pep := 1/50, proteins := ["protB"] },
+          { peptide := "MKLIHGF", pep := 1/50, proteins := ["REV__protA"] } ] := by decide +kernel
+
+/-- hypothesis of `unknown_peptides_skipped_digest` for `DEFGHIWW`, and of clause (2) of `non_specific_ingestion`:
+    no record of the database contains it -/
+example : ∀ p ∈ pairUpD true [exNsDigest] [exNsRows], p.1.lookup "DEFGHIWW" = [] := by decide +kernel
+
+example : ∀ x ∈ C09.dbRecords .firstSpace exNsParams exNsFiles, containsSub "DEFGHIWW".toList x.2 = false := by
+  decide +kernel
 
 end PgFdr.C10
